@@ -80,6 +80,9 @@ fn piece(fi: usize) -> BoxedStrategy<String> {
         2 => (select(cls), 1usize..=8).prop_map(|(o, n)| o.repeat(n)),
         6 => small_value_text(fi),
         3 => any::<char>().prop_map(|c| c.to_string()),
+        // overlong names / numbers (still within 512 chars after clipping)
+        2 => (gen::name_char(fi, gen::NameProfile::Main), 40usize..500).prop_map(|(c, n)| c.to_string().repeat(n)),
+        1 => (select(vec!["1.", "0", "9", ".", "é", "１"]), 40usize..300).prop_map(|(c, n)| c.repeat(n)),
     ]
     .boxed()
 }
